@@ -240,7 +240,7 @@ pub fn ref_cell(c: &Case, i: usize, opts: &RefOpts) -> RefCell {
     for k in 0..d {
         diag2 += (hi[k] - lo[k]) * (hi[k] - lo[k]);
     }
-    let tau = diag2.sqrt() * 2f64.powi(-46);
+    let tau = diag2.sqrt() * 2f64.powi(-50);
     let mut sites = sites_rel(c, i, opts.image_range);
     if let Some((seed, delta)) = opts.jitter {
         let own = jitter_vec(seed, i, [0; 3], d, delta);
